@@ -20,6 +20,7 @@ structure Cur where
   switches : Nat := 0
   res : RState Res.State := .ok (Res.init 1)
   job : RState JobMap.St := .ok {}
+  calls : List (Nat × Call) := []
 
 def wanted (sel : List String) (id : String) : Bool := sel.isEmpty || sel.contains id
 
@@ -70,6 +71,11 @@ partial def loop (h : IO.FS.Stream) (sel : List String) (c : Cur) : IO Unit := d
       | some rl => { c with res := ResMap.feed c.res (c.nlines + 1) rl, job := JobMap.feed c.job (c.nlines + 1) rl }
       | none => c
     match parseObs line with
+    | some (.call g cid cl) => loop h sel { c with obs := c.obs.push (.call g cid cl), nlines := c.nlines + 1, calls := (cid, cl) :: c.calls }
+    | some (.ret g cid cl r) =>
+      -- the return line does not repeat the arguments: take the call from its call line
+      let cl' := match c.calls.find? (·.1 == cid) with | some (_, x) => x | none => cl
+      loop h sel { c with obs := c.obs.push (.ret g cid cl' r), nlines := c.nlines + 1, calls := c.calls.filter (·.1 != cid) }
     | some o => loop h sel { c with obs := c.obs.push o, nlines := c.nlines + 1 }
     | none => loop h sel { c with nlines := c.nlines + 1 }
 
